@@ -9,23 +9,63 @@ from symx import terms as T
 from symx import stubs
 from symx.framework import Obligation, V
 from symx.engine import SymReal, SymBool, term_of, current
+from symx.shim import sym_arctan
 from . import common as H
 from .common import K, Mode
 
-EXPLANATION = 'TODO'
-BOUNDS = []
-OUTSIDE = []
-ASSUMPTIONS = []
-META = {'level_text': 'TODO', 'level_note': 'TODO'}
+EXPLANATION = (
+    'The real methods of SetupRiemannProblem are executed on symbolic reals. Kernels: compression_states against the '
+    'oblique-shock conservation laws (normal momentum, total enthalpy, tangential velocity, deflection), '
+    'PrandtlMeyer_function against d nu/dM and nu(1)=0, expansion_states against isentropy, total enthalpy and the '
+    'Prandtl-Meyer differential relation d(turning)/dp. One stream at a time (the other stream a fixed dummy): '
+    'set_initial_state_values, determine_state_functions, set_starstate_values and assign_lineout_vals are run with a '
+    'symbolic star pressure; z3 decides inflow/star velocity consistency and direction, the coded shock-angle equation '
+    'at the true shock ray, Mach-line conditions at fan head, tail and interior, isentropy/enthalpy inside fans, and '
+    'the region assignment for every polar angle (parametrised per region). find_overlap is executed with its '
+    'tabulated search replaced by a symbol and fsolve by its contract (slip-line balance, four wave patterns) and, cut '
+    'before the search, on one-entry tables (the curves handed to the search are the documented Phi_T, Phi_B).')
+BOUNDS = [
+    'adiabatic indices from a finite rational set wherever a fan is involved (exponent (g-1)/g); symbolic gamma for the shock and Prandtl-Meyer kernels',
+    'one-stream obligations: the other stream is a fixed dummy (shock of pressure ratio 2, Mach 3, different gamma); the code computes the two sides independently given (p*, slip angle)',
+    'shock strength below the tabulated range limit p* < 10 p0; star pressure above 1e-9',
+    'evaluation points with x > 0 (the code takes arctan(y/x)), polar angle parametrised per region relative to the wave angles: all points except those exactly on a wave ray',
+]
+OUTSIDE = [
+    "find_overlap's tabulated 10^4-point pressure-deflection search (setup_initial_arrays, test_for_nans, remove_subsonic_compression, interp/bisect): only the curves handed to it and the final fsolve contract are checked",
+    'which root fsolve returns (weak/strong shock, convergence); existence of a solution without vacuum',
+    'uniqueness of the pressure inside a fan for a given ray (fsolve contract: any root of the coded turning equation)',
+    'the full self-similar Euler ODE inside a fan: only isentropy, total enthalpy, turning and the Mach-line condition are claimed',
+    'points exactly on a wave ray (strict comparisons in the code leave them in the default bottom state)',
+]
+ASSUMPTIONS = [
+    'fsolve stubs: the returned value is an arbitrary zero of the real residual function; in find_overlap the tabulated guess is taken to be that zero (so the wave pattern is the one of the returned pressure)',
+    "determine_shock_angle's fsolve is replaced by a free symbol; its residual function is captured and claimed to vanish at the true shock angle instead; the dummy stream's wave angle is assumed to lie on its own side of the slip line",
+    'trusted trigonometry handed to the solver per claim: addition formulas for sin/cos/tan of integer combinations of the base angles, sin^2+cos^2=1, tan(arctan t)=t, sin(arctan t)=t cos(arctan t), cos(arctan t)>0, sin(arcsin y)=y, cos(arcsin y)>=0, arcsin(1/M) in (0, pi/2) for M>1, functional congruence of sin/cos/tan/arctan/arcsin atoms, arctan(x tan(phi)/x)=phi for |phi|<pi/2',
+    'determine_state_functions only reads the end points of the tabulated pressure ranges; they are supplied as [p0, 10 p0] and [1e-10, p0] (the linspace end points of setup_initial_arrays)',
+]
+META = {
+    'level_text': ('Bounded symbolic check of the real SetupRiemannProblem methods: stream states, star pressure / shock angle, '
+                   'evaluation point symbolic; gamma sliced where a fan is involved; wave patterns, sides and regions enumerated; '
+                   'z3 decides the oblique-shock conservation laws, the Prandtl-Meyer relations, Mach-line conditions, star/inflow '
+                   'velocity consistency, slip-line balance and region assignment on every path. Not a proof: floats as reals, '
+                   'root finders replaced by contracts, trigonometric atoms with trusted identities, tabulated search outside.'),
+    'level_note': ('Trusted: z3; symx proxies/shims/stubs (kernels validated per path against the unshimmed code); the oracle '
+                   'statements and the trigonometric identities in harness/C19.py.'),
+}
 
 M2 = 'exactpack.solvers.riemann2D_2section_steadystate.riemann2D_2section_steadystate'
 G_QUICK = [Fraction(7, 5), Fraction(5, 3)]
 G_FULL = [Fraction(6, 5), Fraction(7, 5), Fraction(5, 3), Fraction(2), Fraction(3)]
+ALLTRIG = ('arctan', 'arcsin', 'sin', 'cos', 'tan')
 
 
 def new_prob():
     cls = H.mod(M2).SetupRiemannProblem
     return cls.__new__(cls)
+
+
+def _t(x):
+    return x if isinstance(x, T.Term) else term_of(x)
 
 
 def tan_of(v):
@@ -36,6 +76,22 @@ def tan_of(v):
             return SymReal(t.args[1])
         return SymReal(T.func('tan', t))
     return math.tan(v)
+
+
+def fsin(v):
+    return v.sin() if isinstance(v, SymReal) else math.sin(v)
+
+
+def fcos(v):
+    return v.cos() if isinstance(v, SymReal) else math.cos(v)
+
+
+def ftan(v):
+    return v.tan() if isinstance(v, SymReal) else math.tan(v)
+
+
+def fpi(mk):
+    return SymReal(T.var('PI')) if Mode.symbolic(mk) else math.pi
 
 
 def gam(mk, g, name='g'):
@@ -56,8 +112,8 @@ def fn_nodes(roots, names):
 
 
 def congruence(roots, names=('arctan', 'arcsin')):
-    """arctan / arcsin are functions: equal arguments give equal values (the encoder treats every syntactically
-    different application as an independent atom)"""
+    """sin, cos, arctan ... are functions: equal arguments give equal values (the encoder treats every
+    syntactically different application as an independent atom)"""
     ns = fn_nodes(roots, names)
     facts = []
     for i in range(len(ns)):
@@ -68,11 +124,7 @@ def congruence(roots, names=('arctan', 'arcsin')):
 
 
 def out_terms(out):
-    ts = []
-    for v in out.values():
-        if isinstance(v, SymReal):
-            ts.append(v.t)
-    return ts
+    return [v.t for v in out.values() if isinstance(v, SymReal)]
 
 
 def assume_all(facts):
@@ -81,32 +133,12 @@ def assume_all(facts):
         ex.assume(f)
 
 
-def _t(x):
-    return x if isinstance(x, T.Term) else term_of(x)
-
-
-def fsin(v):
-    return v.sin() if isinstance(v, SymReal) else math.sin(v)
-
-
-def fcos(v):
-    return v.cos() if isinstance(v, SymReal) else math.cos(v)
-
-
-def ftan(v):
-    return v.tan() if isinstance(v, SymReal) else math.tan(v)
-
-
-def fsqrt(v):
-    return v.sqrt() if isinstance(v, SymReal) else math.sqrt(v)
-
-
 class Trig(object):
     """Trusted trigonometry for the solver: every sin/cos/tan atom whose argument is an integer combination of the
-    given base angles is expressed through the cos/sin of the base angles by the addition formulas.  Each fact has the
-    form  (A == sum k_i b_i)  ->  f(A) == polynomial,  the antecedent being decided by the solver (linear), so a wrong
+    base angles is expressed through cos/sin of the base angles by the addition formulas.  Each fact has the form
+    (A == sum k_i b_i) -> f(A) == polynomial, the antecedent being decided by the solver (linear), so a wrong
     decomposition can only make a fact vacuous, never unsound.  arctan / arcsin bases additionally get
-    sin(arctan t) = t cos(arctan t), cos(arctan t) > 0, sin(arcsin y) = y, cos(arcsin y) >= 0."""
+    sin(arctan t) = t cos(arctan t), cos(arctan t) > 0, tan(arctan t) = t, sin(arcsin y) = y, cos(arcsin y) >= 0."""
 
     def __init__(self, bases=()):
         self.bases = []
@@ -119,30 +151,36 @@ class Trig(object):
             return
         self.bases.append(b)
 
-    def cs(self, b):
+    @staticmethod
+    def cs(b):
         return T.func('cos', b), T.func('sin', b)
 
     def facts(self, roots):
         roots = [_t(r) for r in roots]
         for n in fn_nodes(roots, ('arctan', 'arcsin')):
             self.add_base(n)
-        out = []
-        for b in self.bases:
-            c, s_ = self.cs(b)
-            out.append(T.eq(T.add(T.mul(c, c), T.mul(s_, s_)), T.ONE))
-            if b.op == 'fn' and b.args[0] == 'arctan':
-                out += [T.eq(s_, T.mul(b.args[1], c)), T.gt(c, T.ZERO)]
-            if b.op == 'fn' and b.args[0] == 'arcsin':
-                out += [T.eq(s_, b.args[1]), T.ge(c, T.ZERO)]
+        atoms = fn_nodes(roots, ('sin', 'cos', 'tan'))
         fresh = [T.var('__ang%d' % i) for i in range(len(self.bases))]
         mapping = dict(zip(self.bases, fresh))
         names = [f.args[0] for f in fresh]
-        for n in fn_nodes(roots + out, ('sin', 'cos', 'tan')):
+        out = []
+        used = set()
+        for n in atoms:
             A = n.args[1]
-            if any(A is b for b in self.bases) and n.args[0] != 'tan':
-                continue
             ks = self._decompose(A, mapping, names)
             if ks is None:
+                continue
+            for i, k in enumerate(ks):
+                if k:
+                    used.add(i)
+            if sum(abs(k) for k in ks) == 1 and sum(ks) == 1 and any(A is b for b in self.bases):
+                if n.args[0] == 'tan':
+                    b = A
+                    if b.op == 'fn' and b.args[0] == 'arctan':
+                        out.append(T.eq(n, b.args[1]))
+                    else:
+                        c, s_ = self.cs(b)
+                        out.append(T.eq(T.mul(n, c), s_))
                 continue
             comb = T.ZERO
             cA, sA = T.ONE, T.ZERO
@@ -163,13 +201,23 @@ class Trig(object):
             else:
                 fact = T.eq(T.mul(n, cA), sA)
             out.append(fact if cond is T.TRUE else T.implies(cond, fact))
+        for i in sorted(used):
+            b = self.bases[i]
+            c, s_ = self.cs(b)
+            out.append(T.eq(T.add(T.mul(c, c), T.mul(s_, s_)), T.ONE))
+            if b.op == 'fn' and b.args[0] == 'arctan':
+                out += [T.eq(s_, T.mul(b.args[1], c)), T.gt(c, T.ZERO)]
+            if b.op == 'fn' and b.args[0] == 'arcsin':
+                out += [T.eq(s_, b.args[1]), T.ge(c, T.ZERO)]
         return out
 
-    def _decompose(self, A, mapping, names):
+    @staticmethod
+    def _decompose(A, mapping, names):
         A2 = T.substitute(A, mapping)
-        if any(v not in names for v in T.free_vars(A2)):
+        if any(v not in names and v != 'PI' for v in T.free_vars(A2)):
             return None
         zero = {n: 0.0 for n in names}
+        zero['PI'] = math.pi
         try:
             c0 = T.evalf(A2, zero)
             ks = []
@@ -178,6 +226,7 @@ class Trig(object):
                 e[n] = 1.0
                 ks.append(T.evalf(A2, e) - c0)
             e = {n: 0.37 + 0.11 * i for i, n in enumerate(names)}
+            e['PI'] = math.pi
             lin = c0 + sum(k * e[n] for k, n in zip(ks, names))
             if abs(c0) > 1e-12 or abs(T.evalf(A2, e) - lin) > 1e-9:
                 return None
@@ -189,33 +238,95 @@ class Trig(object):
         return ki
 
 
+class TrigClaims(object):
+    """claim constructor that hands the solver, per claim, exactly the trigonometric facts about the atoms occurring in
+    that claim (as its precondition); numeric mode: plain claims"""
+
+    def __init__(self, cx, bases=(), extra=()):
+        self.cx, self.bases, self.extra = cx, [b for b in bases if isinstance(b, (SymReal, T.Term))], list(extra)
+
+    def when(self, *vals, **kw):
+        more = kw.get('more')
+        if not self.cx.symbolic:
+            return more
+        roots = [_t(v) for v in vals if isinstance(v, (SymReal, T.Term))]
+        facts = Trig(self.bases).facts(roots)
+        facts += congruence(roots + facts, ALLTRIG)
+        facts = [f for f in facts if f is not T.TRUE] + [_t(e) if not isinstance(e, SymBool) else e.t for e in self.extra]
+        w = SymBool(T.land(*facts)) if facts else None
+        if more is not None:
+            w = more if w is None else (w & more)
+        return w
+
+    def __call__(self, label, a, b, kind='eq', more=None, roots=(), **kw):
+        getattr(self.cx, kind)(label, a, b, when=self.when(a, b, *roots, more=more), **kw)
+
+
 @contextlib.contextmanager
 def patched(mod, **names):
-    """temporarily rebind module globals (both modes; restores whatever was there, shim or original)"""
-    saved = {k: mod.__dict__.get(k) for k in names}
+    """temporarily rebind module globals (restores whatever was there, shim or original)"""
+    missing = object()
+    saved = {k: mod.__dict__.get(k, missing) for k in names}
     mod.__dict__.update(names)
     try:
         yield
     finally:
-        mod.__dict__.update(saved)
+        for k, v in saved.items():
+            if v is missing:
+                mod.__dict__.pop(k, None)
+            else:
+                mod.__dict__[k] = v
 
 
-def capturing_fsolve(cap, symbolic, contract=False):
+def capturing_fsolve(cap, symbolic):
     """scipy.optimize.fsolve stand-in that records the residual function it is given.  Symbolic mode: returns a fresh
-    unconstrained symbol (contract=False: the defining equation is checked separately at the true solution) or the
-    usual root stub; concrete mode: the real fsolve."""
+    unconstrained symbol (the defining equation is claimed separately, at the true solution); concrete mode: the real
+    fsolve."""
     import scipy.optimize as so
 
     def f(func, x0, *a, **k):
-        cap.append(func)
         if symbolic:
-            if contract:
-                return stubs.fsolve_stub(func, x0, *a, **k)
             out = np.empty(1, dtype=object)
             out[0] = current().fresh('root')
-            return out
-        return so.fsolve(func, x0, *a, **k)
+        else:
+            out = so.fsolve(func, x0, *a, **k)
+        cap.append((func, out[0]))
+        return out
     return f
+
+
+def unknown_for(returned, raw, target, mk):
+    """The code returns `returned' = raw + offset where raw is what fsolve gave back (offset 0 in the present code,
+    the inflow angle if the equation were written in the stream's frame): the value of the unknown for which the
+    code would return `target'.  Symbolic mode checks that returned - raw does not depend on raw."""
+    if not Mode.symbolic(mk):
+        return target - (returned - raw)
+    r = _t(raw)
+    off = T.sub(_t(returned), r)
+    o0, o1 = T.substitute(off, {r: T.ZERO}), T.substitute(off, {r: T.ONE})
+    import random
+    rng = random.Random(7)
+    for _ in range(3):
+        env = {n: rng.uniform(0.3, 1.7) for n in T.free_vars([o0, o1])}
+        env['PI'] = math.pi
+        if abs(T.evalf(o0, env) - T.evalf(o1, env)) > 1e-9:
+            raise T.NotEncodable('returned shock angle is not (fsolve result + constant)')
+    return target - SymReal(o0)
+
+
+def polar_arctan(x, *a, **k):
+    """arctan(x tan(phi) / x) is phi for |phi| < pi/2 (asserted by the caller): keeps the polar angle of the evaluation
+    point a plain term instead of an opaque atom"""
+    if isinstance(x, SymReal):
+        t = x.t
+        if t.op == 'div' and t.args[0].op == 'mul':
+            m1, m2 = t.args[0].args
+            for xx, tt in ((m1, m2), (m2, m1)):
+                if xx is t.args[1] and tt.op == 'fn' and tt.args[0] == 'tan':
+                    return SymReal(tt.args[1])
+        if t.op == 'fn' and t.args[0] == 'tan':
+            return SymReal(t.args[1])
+    return sym_arctan(x, *a, **k)
 
 
 def fake_arrays(prob):
@@ -228,7 +339,7 @@ def fake_arrays(prob):
         setattr(prob, name + '_expansion_arrays', [H.arr([1e-10 + z, p0]), H.arr([z, z])])
 
 
-def one_sided(m, mk, side, tested, ps, gd, cap, contract=False):
+def one_sided(m, mk, side, tested, ps, gd, cap):
     """Run the real set_initial_state_values / determine_state_functions / set_starstate_values with the stream under
     test on `side' and a dummy stream (a shock of pressure ratio 2 at Mach 3, its own gamma) on the other side; the
     star pressure ps is given and the slip-line angle is the tested side's own pressure-deflection function at ps."""
@@ -240,8 +351,14 @@ def one_sided(m, mk, side, tested, ps, gd, cap, contract=False):
     top_f, bot_f = prob.determine_state_functions(ps)
     prob.pressure_solution = ps
     prob.deflection_angle_solution = (top_f if side == 'T' else bot_f)(ps)
-    with patched(m, fsolve=capturing_fsolve(cap, Mode.symbolic(mk), contract)):
+    with patched(m, fsolve=capturing_fsolve(cap, Mode.symbolic(mk))):
         prob.set_starstate_values()
+    if Mode.symbolic(mk):
+        # the dummy stream's shock lies on the dummy's side of the slip line
+        if side == 'T':
+            current().assume(T.lt(_t(prob.angles['BS']), _t(prob.angles['CD'])))
+        else:
+            current().assume(T.gt(_t(prob.angles['TS']), _t(prob.angles['CD'])))
     return prob
 
 
@@ -250,6 +367,61 @@ def side_vals(prob, side):
     if side == 'T':
         return prob.thetaT_rad, (prob.pT, prob.rT, prob.MT, prob.uT, prob.vT), tuple(prob.top_star_vals)
     return prob.thetaB_rad, (prob.pB, prob.rB, prob.MB, prob.uB, prob.vB), tuple(prob.bottom_star_vals)
+
+
+def inflow_angle_deg(mk, theta_sym):
+    """inflow angle in degrees, parametrised by its tangent `tth' (so that the solver's model of the trigonometric
+    atoms is exact and witnesses replay faithfully)"""
+    if not theta_sym:
+        return K(mk, 0)
+    t = K(mk, theta_sym) if isinstance(theta_sym, Fraction) else mk('tth')
+    if Mode.symbolic(mk):
+        return t.arctan() * (180 / SymReal(T.var('PI')))
+    return math.degrees(math.atan(t))
+
+
+def shock_angle(mk):
+    """shock angle beta in (0, pi/2), parametrised by S = sin(beta)"""
+    S = mk('S')
+    return (S.arcsin() if Mode.symbolic(mk) else math.asin(S)), S
+
+
+def theta_tag(theta_sym):
+    return 'sym' if theta_sym is True else ('0' if not theta_sym else 'atan(%s)' % theta_sym)
+
+
+def theta_text(theta_sym):
+    return ('symbolic in (-59.5, 59.5) deg (parametrised by its tangent)' if theta_sym is True else
+            '= 0' if not theta_sym else '= atan(%s)' % theta_sym)
+
+
+def sgn(side):
+    """+1: top stream (waves above the slip line, compression turns the flow counter-clockwise); -1: bottom"""
+    return 1 if side == 'T' else -1
+
+
+def base_domain(V, theta_sym, extra=()):
+    d = [T.gt(V('p0'), T.const(Fraction(1, 10 ** 9))), T.gt(V('r0'), T.ZERO), T.gt(V('M0'), T.ONE)]
+    if theta_sym is True:
+        d += [T.gt(V('tth'), T.const(Fraction(-17, 10))), T.lt(V('tth'), T.const(Fraction(17, 10)))]
+    return d + list(extra)
+
+
+def shock_pressure(g, p0, M0, sb):
+    """pressure behind an oblique shock of angle beta (normal-shock relation on the normal Mach number)"""
+    return p0 * (1 + 2 * g / (g + 1) * (M0 * M0 * sb * sb - 1))
+
+
+def shock_domain(V, g):
+    g = T.const(g)
+    S = V('S')
+    mn2 = T.mul(T.mul(V('M0'), V('M0')), T.mul(S, S))
+    a = T.add(T.ONE, T.mul(T.div(T.mul(T.TWO, g), T.add(g, T.ONE)), T.sub(mn2, T.ONE)))
+    return [T.gt(mn2, T.ONE), T.lt(a, T.const(10)), T.gt(S, T.ZERO), T.lt(S, T.ONE)]
+
+
+def fan_domain(V):
+    return [T.gt(V('ps'), T.const(Fraction(1, 10 ** 9))), T.lt(V('ps'), V('p0'))]
 
 
 # ------------------------------------------------------------------ kernels
@@ -265,7 +437,8 @@ class ShockKernel(Obligation):
         self.modules = [self.m]
         self.functions = [self.m.SetupRiemannProblem.compression_states]
         self.bounds = ('upstream pressure, density, Mach number > 1, flow angle and downstream pressure symbolic '
-                       '(p0 < ps, normal Mach number below the upstream Mach number); gamma fixed per obligation')
+                       '(p0 < ps, normal Mach number below the upstream Mach number); gamma %s'
+                       % ('symbolic > 1' if g is None else 'fixed'))
         self.timeout_s = 40
 
     def build(self, mk):
@@ -377,77 +550,473 @@ class FanKernel(Obligation):
         cx.eq('fan: Mach number unchanged at ps == p0', cx['Ms0'], M0)
 
 
+class ShockGlue(Obligation):
+    """Oracle consistency (no ExactPack code): the scalar oblique-shock relations claimed by kernel.shock together with
+    the velocity lemmas claimed by shock.<side> imply the 2-D jump conditions (tangential velocity, mass, normal
+    momentum, total enthalpy) across the ray at angle beta from the inflow direction."""
+
+    def __init__(self, side):
+        self.side = side
+        self.id = 'C19.oracle.shock-glue.%s' % side
+        self.modules = []
+        self.functions = []
+        self.bounds = 'pure real arithmetic over abstract states (gamma symbolic); written in the frame aligned with the inflow'
+        self.timeout_s = 50
+        self.skip_validation = True
+
+    NAMES = 'p0 r0 M0 S C Q0 r1 M1sq td a1 b1 g'.split()
+
+    def build(self, mk):
+        return {n: mk(n) for n in self.NAMES}
+
+    def domain(self, V):
+        p0, r0, M0, S, C, Q0, r1, M1sq, td, a1, b1, g = (SymReal(V(n)) for n in self.NAMES)
+        sg = sgn(self.side)
+        p1 = shock_pressure(g, p0, M0, S)
+        un0 = Q0 * Q0 * S * S
+        k = r0 / r1
+        un1 = un0 * k * k
+        hyp = [p0 > 0, r0 > 0, M0 > 1, g > 1, S > 0, C > 0, S * S + C * C == 1, M0 * M0 * S * S > 1, Q0 > 0,
+               Q0 * Q0 == M0 * M0 * g * p0 / r0, r1 > r0, M1sq > 0,
+               p0 + r0 * un0 == p1 + r1 * un1,
+               g / (g - 1) * p0 / r0 + un0 / 2 == g / (g - 1) * p1 / r1 + un1 / 2,
+               M1sq * g * p1 / r1 == un1 + Q0 * Q0 * (1 - S * S),
+               td * (1 + k * (S / C) * (S / C)) == (S / C) * (1 - k), td > 0,
+               a1 > 0, b1 == sg * td * a1, a1 * a1 + b1 * b1 == M1sq * g * p1 / r1]
+        return [h.t for h in hyp]
+
+    def claims(self, cx):
+        p0, r0, M0, S, C, Q0, r1, M1sq, td, a1, b1, g = (cx[n] for n in self.NAMES)
+        sg = sgn(self.side)
+        p1 = shock_pressure(g, p0, M0, S)
+        un0, ut0 = -sg * S * Q0, C * Q0
+        un1, ut1 = -sg * S * a1 + C * b1, C * a1 + sg * S * b1
+        cx.eq('glue: tangential velocity continuous', ut0, ut1)
+        cx.eq('glue: mass flux continuous', r0 * un0, r1 * un1)
+        cx.eq('glue: normal momentum flux continuous', p0 + r0 * un0 * un0, p1 + r1 * un1 * un1)
+        cx.eq('glue: total enthalpy continuous', g / (g - 1) * p0 / r0 + Q0 * Q0 / 2,
+              g / (g - 1) * p1 / r1 + (a1 * a1 + b1 * b1) / 2)
+
+
 # ------------------------------------------------------------------ one stream, one wave: star state and wave angles
 
+def inflow_and_star_claims(cx, eq, g, sg, label_turn):
+    """claims shared by the shock and fan one-stream obligations (velocities in the frame aligned with the inflow)"""
+    p0, r0, M0, u0, v0 = (cx[k + '0'] for k in 'prMuv')
+    p1, r1, M1, u1, v1 = (cx[k + '1'] for k in 'prMuv')
+    cth, sth = cx['cth'], cx['sth']
+    a0, b0 = u0 * cth + v0 * sth, -u0 * sth + v0 * cth
+    eq('inflow velocity: directed along the inflow angle', b0, 0, scale=[a0, 1e-300])
+    eq('inflow velocity: positive along the inflow angle', a0, 0, kind='gt')
+    eq('inflow velocity: speed == Mach number * sound speed', u0 * u0 + v0 * v0, M0 * M0 * g * p0 / r0)
+    eq('star state: pressure is the star pressure', p1, cx['ps'])
+    eq('star state: density is the wave relation at the star pressure', r1, cx['krs'])
+    eq('star state: Mach number is the wave relation at the star pressure', M1, cx['kMs'])
+    eq('star state: speed == Mach number * sound speed', u1 * u1 + v1 * v1, M1 * M1 * g * p1 / r1)
+    cE, sE = cx['cE'], cx['sE']
+    eq('star state: ' + label_turn, v1 * cE, u1 * sE, scale=[u1, v1])
+    eq('star state: velocity points along the turned direction (not against it)', u1 * cE + v1 * sE, 0, kind='gt')
+    eq('slip-line angle (CD) is the star flow direction', cx['vcd'] * cE, cx['ucd'] * sE, scale=[1.0])
+
+
+def common_outputs(mk, prob, side, g, ps, kern):
+    thr, ini, star = side_vals(prob, side)
+    kd, krs, kMs = kern
+    E = thr + sgn(side) * kd                                  # oracle: inflow angle +/- turning of the wave at ps
+    cd = prob.angles['CD']
+    out = dict(_g=g, ps=ps, krs=krs, kMs=kMs, cth=fcos(thr), sth=fsin(thr), cE=fcos(E), sE=fsin(E),
+               ucd=fcos(cd), vcd=fsin(cd), _bases=(), _morph=prob.morphology)
+    for k, v in zip('prMuv', ini):
+        out[k + '0'] = v
+    for k, v in zip('prMuv', star):
+        out[k + '1'] = v
+    return out, thr, E
+
+
 class ShockSide(Obligation):
-    """A stream turned by an oblique shock: the reported star state and the initial state satisfy the 2-D jump
-    conditions across the ray at the true shock angle, and the coded shock-angle equation holds at that angle."""
+    """A stream turned by an oblique shock: inflow and star velocities, star state composition, and the coded
+    shock-angle equation evaluated at the true shock ray."""
 
     def __init__(self, side, g, gd, theta_sym):
         self.side, self.g, self.gd, self.theta_sym = side, g, gd, theta_sym
         self.m = H.mod(M2)
-        self.id = 'C19.shock.%s.theta=%s.g=%s' % (side, 'sym' if theta_sym else '0', g)
+        self.id = 'C19.shock.%s.theta=%s.g=%s' % (side, theta_tag(theta_sym), g)
         self.modules = [self.m]
         c = self.m.SetupRiemannProblem
         self.functions = [c.set_initial_state_values, c.determine_state_functions, c.compression_states,
                           c.determine_shock_angle, c.set_starstate_values]
         self.bounds = ('one stream (pressure, density, Mach number, inflow angle %s) and the shock angle beta symbolic, star '
-                       'pressure = normal-shock pressure for beta; gamma fixed; other stream: fixed dummy'
-                       % ('symbolic' if theta_sym else '= 0'))
+                       'pressure = normal-shock pressure for beta (< 10 p0); gamma fixed; other stream: fixed dummy'
+                       % theta_text(theta_sym))
         self.timeout_s = 50
         self.skip_validation = True
         self.stage_a = False
 
     def build(self, mk):
         g = K(mk, self.g)
-        p0, r0, M0, beta = mk('p0'), mk('r0'), mk('M0'), mk('beta')
-        th = mk('th') if self.theta_sym else K(mk, 0)
-        sb = fsin(beta)
-        ps = p0 * (1 + 2 * g / (g + 1) * (M0 * M0 * sb * sb - 1))
+        p0, r0, M0 = mk('p0'), mk('r0'), mk('M0')
+        th = inflow_angle_deg(mk, self.theta_sym)
+        beta, S = shock_angle(mk)
+        ps = shock_pressure(g, p0, M0, S)
         cap = []
-        prob = one_sided(self.m, mk, self.side, [p0, r0, M0, th, g], ps, self.gd, cap)
+        tested = [p0, r0, M0, th, g]
+        prob = one_sided(self.m, mk, self.side, tested, ps, self.gd, cap)
+        out, thr, E = common_outputs(mk, prob, self.side, g, ps, prob.compression_states(ps, tested))
+        x = thr + sgn(self.side) * beta                        # the true shock ray
+        func, raw = cap[1 if self.side == 'T' else 0]
+        # coded residual of the shock-angle equation at the value of its unknown that makes the code return x
+        out['res'] = func(unknown_for(prob.angles['TS' if self.side == 'T' else 'BS'], raw, x, mk))
+        out['tcd'] = ftan(prob.deflection_angle_solution)
+        if not Mode.symbolic(mk):
+            out['coded_angle'] = prob.angles['TS' if self.side == 'T' else 'BS']
+            out['true_angle'] = x
+        return out
+
+    def domain(self, V):
+        return base_domain(V, self.theta_sym, shock_domain(V, self.g))
+
+    def claims(self, cx):
+        g = cx['_g']
+        eq = TrigClaims(cx, cx['_bases'])
+        inflow_and_star_claims(cx, eq, g, sgn(self.side), 'flow direction == inflow angle turned towards the shock by the deflection')
+        if self.theta_sym is not True or self.tier == 'thorough':
+            # (symbolic inflow angle: the exact trigonometric system is beyond the quick-tier time limit)
+            eq('coded shock-angle equation holds at the true shock angle', cx['res'], 0,
+               scale=[cx['tcd'], cx['res'] + cx['tcd'], 1e-3])
+
+
+class FanSide(Obligation):
+    """A stream turned by a Prandtl-Meyer fan: inflow and star velocities, star state composition, fan head and tail
+    rays are Mach lines of the states they bound."""
+
+    def __init__(self, side, g, gd, theta_sym):
+        self.side, self.g, self.gd, self.theta_sym = side, g, gd, theta_sym
+        self.m = H.mod(M2)
+        self.id = 'C19.fan.%s.theta=%s.g=%s' % (side, theta_tag(theta_sym), g)
+        self.modules = [self.m]
+        c = self.m.SetupRiemannProblem
+        self.functions = [c.set_initial_state_values, c.determine_state_functions, c.expansion_states,
+                          c.PrandtlMeyer_function, c.set_starstate_values]
+        self.bounds = ('one stream (pressure, density, Mach number, inflow angle %s) and the star pressure 1e-9 < ps < p0 '
+                       'symbolic; gamma fixed; other stream: fixed dummy'
+                       % theta_text(theta_sym))
+        self.timeout_s = 50
+        self.skip_validation = True
+        self.stage_a = False
+
+    def build(self, mk):
+        g = K(mk, self.g)
+        p0, r0, M0, ps = mk('p0'), mk('r0'), mk('M0'), mk('ps')
+        th = inflow_angle_deg(mk, self.theta_sym)
+        tested = [p0, r0, M0, th, g]
+        prob = one_sided(self.m, mk, self.side, tested, ps, self.gd, [])
+        out, thr, E = common_outputs(mk, prob, self.side, g, ps, prob.expansion_states(ps, tested))
+        out['_bases'] = (prob.angles['CD'],)
+        fan = prob.angles['TR' if self.side == 'T' else 'BR']
+        head, tail = (fan[1], fan[0]) if self.side == 'T' else (fan[0], fan[1])
+        out.update(ch=fcos(head), sh=fsin(head), ct=fcos(tail), st=fsin(tail))
+        return out
+
+    def domain(self, V):
+        return base_domain(V, self.theta_sym, fan_domain(V))
+
+    def claims(self, cx):
+        g, sg = cx['_g'], sgn(self.side)
+        eq = TrigClaims(cx, cx['_bases'])
+        inflow_and_star_claims(cx, eq, g, sg, 'flow direction == inflow angle turned away from the fan by the Prandtl-Meyer turning')
+        p0, r0, u0, v0 = cx['p0'], cx['r0'], cx['u0'], cx['v0']
+        p1, r1, u1, v1 = cx['p1'], cx['r1'], cx['u1'], cx['v1']
+        # a ray of a centred simple wave is a Mach line: the velocity component normal to it is the sound speed
+        eq('fan head is the Mach line of the inflow', -u0 * cx['sh'] + v0 * cx['ch'], -sg * cx.sqrt(g * p0 / r0))
+        eq('fan tail is the Mach line of the star state', -u1 * cx['st'] + v1 * cx['ct'], -sg * cx.sqrt(g * p1 / r1))
+
+
+# ------------------------------------------------------------------ assign_lineout_vals: every polar angle, by region
+
+FIELDS = ('p', 'r', 'sie', 'M', 'u', 'v', 'speed')
+
+
+class Lineout(Obligation):
+    """assign_lineout_vals at a point of polar angle phi = A + tau (B - A), 0 < tau < 1, where (A, B) are the coded wave
+    angles bounding one region of the tested stream (or +-pi/2)."""
+
+    def __init__(self, side, wave, region, g, gd, theta_sym=True, box=False):
+        self.side, self.wave, self.region, self.g, self.gd, self.theta_sym = side, wave, region, g, gd, theta_sym
+        self.box = box
+        self.m = H.mod(M2)
+        self.id = 'C19.lineout.%s.%s.%s.g=%s%s' % (side, wave, region, g, '.box' if box else '')
+        self.modules = [self.m]
+        c = self.m.SetupRiemannProblem
+        self.functions = [c.set_initial_state_values, c.determine_state_functions, c.set_starstate_values,
+                          c.assign_lineout_vals, c.expansion_states if wave == 'R' else c.compression_states]
+        self.bounds = ('one stream and the star pressure / shock angle symbolic, inflow angle symbolic in (-60, 60) deg, '
+                       'evaluation point (x > 0, polar angle at fraction tau in (0,1) of region "%s") symbolic; gamma fixed; '
+                       'other stream: fixed dummy' % region)
+        if box:
+            # same claims on a moderate box of inputs: there the coded wave angles are ordered and inside (-pi/2, pi/2)
+            # for the real functions too, so that solver witnesses replay on the path they were found on
+            self.bounds += '; box: Mach number in (2, 5), |inflow angle| < atan(1/2), star pressure in (p0/4, p0) resp. (p0, 4 p0)'
+        self.timeout_s = 50
+        self.skip_validation = True
+        self.stage_a = False
+        self.max_paths = 40
+
+    def build(self, mk):
+        g = K(mk, self.g)
+        p0, r0, M0 = mk('p0'), mk('r0'), mk('M0')
+        th = inflow_angle_deg(mk, self.theta_sym)
+        tested = [p0, r0, M0, th, g]
+        sg = sgn(self.side)
+        if self.wave == 'S':
+            ps = shock_pressure(g, p0, M0, shock_angle(mk)[1])
+        else:
+            ps = mk('ps')
+        prob = one_sided(self.m, mk, self.side, tested, ps, self.gd, [])
         thr, ini, star = side_vals(prob, self.side)
-        x = thr + beta if self.side == 'T' else thr - beta      # the true shock ray
-        res = cap[1 if self.side == 'T' else 0](x)              # coded residual of the shock-angle equation
-        tcd = ftan(prob.deflection_angle_solution)
-        out = dict(res=res, tcd=tcd, cx=fcos(x), sx=fsin(x), _g=g, _morph=prob.morphology)
+        cd = prob.angles['CD']
+        half_pi = fpi(mk) / 2
+        if self.wave == 'S':
+            inner = outer = prob.angles['TS' if self.side == 'T' else 'BS']
+        else:
+            fan = prob.angles['TR' if self.side == 'T' else 'BR']
+            outer, inner = (fan[1], fan[0]) if self.side == 'T' else (fan[0], fan[1])
+        A, B = {'star': (cd, inner), 'fan': (inner, outer), 'outer': (outer, sg * half_pi)}[self.region]
+        tau, x = mk('tau'), mk('x')
+        psi = tau * (B - A)
+        phi = A + psi
+        # the coded wave angles of the tested stream are ordered as they should be: slip line, inner edge, outer edge
+        order = [sg * (inner - cd) > 0, half_pi - sg * outer > 0, cd > -half_pi, cd < half_pi]
+        if self.wave == 'R':
+            order.append(sg * (outer - inner) > 0)
+        if Mode.symbolic(mk):
+            assume_all([o.t for o in order])
+            sane = True
+            with patched(self.m, arctan=polar_arctan):
+                prob.assign_lineout_vals(H.arr([x]), H.arr([x * ftan(phi)]))
+        else:
+            import scipy.optimize as so
+            calls = []
+
+            def rec_fsolve(func, x0, *a, **k):
+                r = so.fsolve(func, x0, *a, **k)
+                calls.append(abs(float(np.ravel(func(r[0]))[0])))
+                return r
+            with patched(self.m, fsolve=rec_fsolve):
+                prob.assign_lineout_vals(H.arr([x]), H.arr([x * ftan(phi)]))
+            # outside the claim: disordered coded angles, and a real fsolve that did not converge inside the fan
+            sane = all(bool(o) for o in order) and all(c < 1e-9 for c in calls)
+        row = [prob.lineout_vals[i][0] for i in range(10)]
+        out = dict(zip(FIELDS, row[3:]))
+        out.update(_g=g, _sane=sane, phi=phi, x_out=row[0], y_out=row[1],
+                   x_in=x, y_in=x * ftan(phi), cphi=fcos(phi), sphi=fsin(phi), thr=thr, _bases=(cd, psi))
         for k, v in zip('prMuv', ini):
             out[k + '0'] = v
         for k, v in zip('prMuv', star):
             out[k + '1'] = v
-        if Mode.symbolic(mk):
-            tr = Trig([thr, beta])
-            facts = tr.facts(out_terms(out))
-            facts += [T.gt(T.func('sin', beta.t), T.ZERO), T.gt(T.func('cos', beta.t), T.ZERO)]
-            assume_all(facts)
+        if self.region == 'fan':
+            kd = prob.expansion_states(out['p'], tested)[0]
+            E = thr + sg * kd
+            out.update(cE=fcos(E), sE=fsin(E))
+            if Mode.symbolic(mk):
+                # hint for the solver only: the flow direction that would make the ray a Mach line, phi -/+ asin(1/M)
+                ml = phi - sg * (1. / out['M']).arcsin()
+                out['_hint'] = (ml.cos(), ml.sin())
         return out
 
     def domain(self, V):
-        g = T.const(self.g)
-        S = T.func('sin', V('beta'))
-        mn2 = T.mul(T.mul(V('M0'), V('M0')), T.mul(S, S))
-        a = T.add(T.ONE, T.mul(T.div(T.mul(T.TWO, g), T.add(g, T.ONE)), T.sub(mn2, T.ONE)))
-        d = [T.gt(V('p0'), T.const(Fraction(1, 10 ** 9))), T.gt(V('r0'), T.ZERO), T.gt(V('M0'), T.ONE), T.gt(V('beta'), T.ZERO),
-             T.lt(T.mul(T.TWO, V('beta')), V('PI')), T.gt(mn2, T.ONE), T.lt(a, T.const(10))]
-        if self.theta_sym:
-            d += [T.gt(V('th'), T.const(-60)), T.lt(V('th'), T.const(60))]
+        d = base_domain(V, self.theta_sym, shock_domain(V, self.g) if self.wave == 'S' else fan_domain(V))
+        if self.box:
+            d += [T.gt(V('M0'), T.TWO), T.lt(V('M0'), T.const(5)), T.gt(V('tth'), T.const(Fraction(-1, 2))),
+                  T.lt(V('tth'), T.HALF), T.gt(V('tau'), T.const(Fraction(1, 10))), T.lt(V('tau'), T.const(Fraction(9, 10)))]
+            if self.wave == 'R':
+                d.append(T.gt(T.mul(T.const(4), V('ps')), V('p0')))
+            else:
+                g = T.const(self.g)
+                mn2 = T.mul(T.mul(V('M0'), V('M0')), T.mul(V('S'), V('S')))
+                d.append(T.lt(T.add(T.ONE, T.mul(T.div(T.mul(T.TWO, g), T.add(g, T.ONE)), T.sub(mn2, T.ONE))), T.const(4)))
+        return d + [T.gt(V('tau'), T.ZERO), T.lt(V('tau'), T.ONE), T.gt(V('x'), T.ZERO)]
+
+    def claims(self, cx):
+        g, sg = cx['_g'], sgn(self.side)
+        sane = None if cx.symbolic else cx['_sane']
+        eq = TrigClaims(cx, cx['_bases'])
+        p, r, sie, M, u, v, speed = (cx[k] for k in FIELDS)
+        cx.eq('returned position is the evaluation point (x)', cx['x_out'], cx['x_in'])
+        cx.eq('returned position is the evaluation point (y)', cx['y_out'], cx['y_in'])
+        if self.region in ('star', 'outer'):
+            exp = [cx[k + ('1' if self.region == 'star' else '0')] for k in 'prMuv']
+            what = 'star state' if self.region == 'star' else 'undisturbed inflow state'
+            for name, got, want in zip(('pressure', 'density', 'Mach', 'x_velocity', 'y_velocity'), (p, r, M, u, v), exp):
+                cx.eq('region %s: %s is the %s' % (self.region, name, what), got, want, when=sane)
+        else:
+            p0, r0, M0 = cx['p0'], cx['r0'], cx['M0']
+            n, d = self.g.numerator, self.g.denominator
+            cx.eq('fan interior: isentropic (p/rho^gamma of the inflow)', (r / r0) ** n, (p / p0) ** d, when=sane)
+            cx.eq('fan interior: total enthalpy of the inflow', g / (g - 1) * p0 / r0 * (1 + (g - 1) / 2 * M0 * M0),
+                  g / (g - 1) * p / r * (1 + (g - 1) / 2 * M * M), when=sane)
+            eq('fan interior: flow direction == inflow angle turned by the Prandtl-Meyer turning of the local pressure',
+               v * cx['cE'], u * cx['sE'], more=sane, scale=[u, v])
+            eq('fan interior: velocity points along the turned direction (not against it)', u * cx['cE'] + v * cx['sE'], 0,
+               kind='gt', more=sane)
+            eq('fan interior: the ray through the point is a Mach line (normal velocity == sound speed)',
+               -u * cx['sphi'] + v * cx['cphi'], -sg * cx.sqrt(g * p / r), more=sane,
+               roots=[cx['phi']] + (list(cx['_hint']) if cx.symbolic else []))
+        cx.eq('all regions: specific internal energy == p/(rho (gamma-1))', sie * r * (g - 1), p, when=sane)
+        cx.eq('all regions: speed^2 == u^2 + v^2', speed * speed, u * u + v * v, when=sane)
+        cx.ge('all regions: speed >= 0', speed, 0, when=sane)
+        cx.eq('all regions: speed == Mach number * sound speed', u * u + v * v, M * M * g * p / r, when=sane)
+
+
+# ------------------------------------------------------------------ find_overlap: curves and slip-line balance
+
+class OverlapCurves(Obligation):
+    """find_overlap, cut before its tabulated search, on one-entry tables: the curves handed to the search are the
+    documented Phi_B(p) = theta_B - deflection_B(p) and Phi_T(p) = theta_T + deflection_T(p)."""
+
+    def __init__(self, gB, gT):
+        self.gB, self.gT = gB, gT
+        self.m = H.mod(M2)
+        self.id = 'C19.overlap.curves.gB=%s.gT=%s' % (gB, gT)
+        self.modules = [self.m]
+        c = self.m.SetupRiemannProblem
+        self.functions = [c.set_initial_state_values, c.find_overlap, c.compression_states, c.expansion_states]
+        self.bounds = ('both streams symbolic (inflow angles in (-60, 60) deg); one tabulated compression pressure and one '
+                       'expansion pressure per stream, symbolic; gamma pair fixed')
+        self.timeout_s = 40
+
+    def build(self, mk):
+        prob = new_prob()
+        sts = {}
+        for s_, g in (('B', self.gB), ('T', self.gT)):
+            sts[s_] = [mk('p' + s_), mk('r' + s_), mk('M' + s_), mk('th' + s_), K(mk, g)]
+        prob.bottom_state, prob.top_state = sts['B'], sts['T']
+        prob.set_initial_state_values()
+        defl = {}
+        for s_, name in (('B', 'bottom'), ('T', 'top')):
+            pc, pe = mk('pc' + s_), mk('pe' + s_)
+            dc = prob.compression_states(pc, sts[s_])[0]
+            de = prob.expansion_states(pe, sts[s_])[0]
+            setattr(prob, name + '_compression_arrays', [H.arr([pc]), H.arr([dc])])
+            setattr(prob, name + '_expansion_arrays', [H.arr([pe]), H.arr([de])])
+            defl[s_] = (dc, de)
+        try:
+            with patched(self.m, linspace=stubs.cut_here, min=stubs.sym_min, max=stubs.sym_max):
+                prob.find_overlap()
+            raise RuntimeError('find_overlap was not cut')
+        except stubs.Cut as c:
+            L = c.locals
+        dB, dT = L['dB'], L['dT']
+        return dict(dB_c=dB[0], dB_e=dB[1], dT_e=dT[0], dT_c=dT[1], thB=prob.thetaB_rad, thT=prob.thetaT_rad,
+                    dcB=defl['B'][0], deB=defl['B'][1], dcT=defl['T'][0], deT=defl['T'][1])
+
+    def domain(self, V):
+        d = []
+        for s_, g in (('B', self.gB), ('T', self.gT)):
+            g = T.const(g)
+            a = T.div(V('pc' + s_), V('p' + s_))
+            num = T.add(T.mul(T.add(g, T.ONE), a), T.sub(g, T.ONE))     # 2 g M^2 sin^2(shock angle), kept below 0.95 * 2 g M^2
+            d += [T.gt(V('p' + s_), T.ZERO), T.gt(V('r' + s_), T.ZERO), T.gt(V('M' + s_), T.ONE),
+                  T.gt(V('th' + s_), T.const(-60)), T.lt(V('th' + s_), T.const(60)),
+                  T.gt(V('pc' + s_), V('p' + s_)), T.gt(V('pe' + s_), T.ZERO), T.lt(V('pe' + s_), V('p' + s_)),
+                  T.lt(num, T.mul(T.const(Fraction(19, 10)), T.mul(g, T.mul(V('M' + s_), V('M' + s_)))))]
         return d
 
     def claims(self, cx):
-        g = cx['_g']
-        p0, r0, M0, u0, v0 = (cx[k + '0'] for k in 'prMuv')
-        p1, r1, M1, u1, v1 = (cx[k + '1'] for k in 'prMuv')
-        c_, s_ = cx['cx'], cx['sx']
-        un0, ut0 = -u0 * s_ + v0 * c_, u0 * c_ + v0 * s_
-        un1, ut1 = -u1 * s_ + v1 * c_, u1 * c_ + v1 * s_
-        cx.eq('star state: speed == Mach number * sound speed', u1 * u1 + v1 * v1, M1 * M1 * g * p1 / r1)
-        cx.eq('shock: tangential velocity continuous', ut0, ut1)
-        cx.eq('shock: mass flux continuous', r0 * un0, r1 * un1)
-        cx.eq('shock: normal momentum flux continuous', p0 + r0 * un0 * un0, p1 + r1 * un1 * un1)
-        cx.eq('shock: total enthalpy continuous', g / (g - 1) * p0 / r0 + (u0 * u0 + v0 * v0) / 2,
-              g / (g - 1) * p1 / r1 + (u1 * u1 + v1 * v1) / 2)
-        cx.eq('coded shock-angle equation holds at the true shock angle', cx['res'], 0,
-              scale=[cx['tcd'], cx['res'] + cx['tcd'], 1e-3])
+        one = [1.0] if not cx.symbolic else None
+        cx.eq('bottom pressure-deflection curve (compression) is theta_B - deflection', cx['dB_c'], cx['thB'] - cx['dcB'], scale=one)
+        cx.eq('bottom pressure-deflection curve (expansion) is theta_B - deflection', cx['dB_e'], cx['thB'] - cx['deB'], scale=one)
+        cx.eq('top pressure-deflection curve (compression) is theta_T + deflection', cx['dT_c'], cx['thT'] + cx['dcT'], scale=one)
+        cx.eq('top pressure-deflection curve (expansion) is theta_T + deflection', cx['dT_e'], cx['thT'] + cx['deT'], scale=one)
+
+
+class Slip(Obligation):
+    """find_overlap (tabulated search replaced by a symbol, fsolve by its contract) + set_starstate_values on two
+    symbolic streams: the slip line is balanced and both star states are the wave relations at the common pressure."""
+
+    def __init__(self, gB, gT):
+        self.gB, self.gT = gB, gT
+        self.m = H.mod(M2)
+        self.id = 'C19.slip.gB=%s.gT=%s' % (gB, gT)
+        self.modules = [self.m]
+        c = self.m.SetupRiemannProblem
+        self.functions = [c.set_initial_state_values, c.find_overlap, c.determine_state_functions, c.set_starstate_values,
+                          c.compression_states, c.expansion_states]
+        self.bounds = ('both streams symbolic (inflow angles in (-60, 60) deg), star pressure = any zero of the coded '
+                       'balance equation inside the tabulated range of the wave pattern; all four wave patterns = paths; '
+                       'gamma pair fixed')
+        self.timeout_s = 40
+        self.skip_validation = True
+        self.max_paths = 40
+
+    def build(self, mk):
+        sts = {}
+        for s_, g in (('B', self.gB), ('T', self.gT)):
+            sts[s_] = [mk('p' + s_), mk('r' + s_), mk('M' + s_), mk('th' + s_), K(mk, g)]
+        if Mode.symbolic(mk):
+            prob = new_prob()
+            prob.bottom_state, prob.top_state = sts['B'], sts['T']
+            prob.set_initial_state_values()
+            fake_arrays(prob)
+            pstar = mk('pstar')
+            nothing = lambda *a, **k: None
+
+            def guess_is_root(func, x0, *a, **k):
+                current().assume(T.eq(_t(func(x0)), T.ZERO))
+                out = np.empty(1, dtype=object)
+                out[0] = x0
+                return out
+            with patched(self.m, append=nothing, min=nothing, max=nothing, linspace=nothing, bisect=nothing,
+                         interp=lambda *a, **k: pstar, fsolve=guess_is_root):
+                prob.find_overlap()
+            with patched(self.m, fsolve=capturing_fsolve([], True)):
+                prob.set_starstate_values()
+        else:
+            prob = self.m.SetupRiemannProblem(bottom_state=sts['B'], top_state=sts['T'])
+        ps = prob.pressure_solution
+        morph = prob.morphology
+        out = dict(_morph=morph, ps=ps, cd=prob.deflection_angle_solution, thB=prob.thetaB_rad, thT=prob.thetaT_rad,
+                   _gB=sts['B'][4], _gT=sts['T'][4])
+        for s_, w in (('B', morph[0]), ('T', morph[4])):
+            kern = (prob.expansion_states if w == 'R' else prob.compression_states)(ps, sts[s_])
+            out.update({'kd' + s_: kern[0], 'kr' + s_: kern[1], 'kM' + s_: kern[2]})
+            out['p0' + s_] = sts[s_][0]
+        for k, v in zip('prMuv', prob.bottom_star_vals):
+            out[k + 'B'] = v
+        for k, v in zip('prMuv', prob.top_star_vals):
+            out[k + 'T'] = v
+        return out
+
+    def domain(self, V):
+        d = [T.gt(V('pstar'), T.const(Fraction(1, 10 ** 9)))]
+        for s_ in 'BT':
+            d += [T.gt(V('p' + s_), T.const(Fraction(1, 10 ** 9))), T.gt(V('r' + s_), T.ZERO), T.gt(V('M' + s_), T.ONE),
+                  T.gt(V('th' + s_), T.const(-60)), T.lt(V('th' + s_), T.const(60))]
+        return d
+
+    def claims(self, cx):
+        m = cx['_morph']
+        one = [1.0] if not cx.symbolic else None
+        tag = m + ': '
+        ps = cx['ps']
+        cx.eq(tag + 'slip angle == theta_B - turning of the bottom wave at p*', cx['cd'], cx['thB'] - cx['kdB'], scale=one)
+        cx.eq(tag + 'slip angle == theta_T + turning of the top wave at p*', cx['cd'], cx['thT'] + cx['kdT'], scale=one)
+        if m[0] == 'S':
+            cx.gt(tag + 'bottom shock compresses (p* > p_B)', ps, cx['p0B'])
+        else:
+            cx.lt(tag + 'bottom fan expands (p* < p_B)', ps, cx['p0B'])
+        if m[4] == 'S':
+            cx.gt(tag + 'top shock compresses (p* > p_T)', ps, cx['p0T'])
+        else:
+            cx.lt(tag + 'top fan expands (p* < p_T)', ps, cx['p0T'])
+        cx.eq(tag + 'pressure equal across the slip line', cx['pB'], cx['pT'])
+        cx.eq(tag + 'flow direction equal across the slip line', cx['uB'] * cx['vT'], cx['vB'] * cx['uT'])
+        cx.gt(tag + 'flows on both sides of the slip line point the same way', cx['uB'] * cx['uT'] + cx['vB'] * cx['vT'], 0)
+        for s_, g in (('B', cx['_gB']), ('T', cx['_gT'])):
+            cx.eq(tag + '%s star pressure is p*' % s_, cx['p' + s_], ps)
+            cx.eq(tag + '%s star density is the wave relation at p*' % s_, cx['r' + s_], cx['kr' + s_])
+            cx.eq(tag + '%s star Mach number is the wave relation at p*' % s_, cx['M' + s_], cx['kM' + s_])
+            cx.eq(tag + '%s star speed == Mach number * sound speed' % s_, cx['u' + s_] * cx['u' + s_] + cx['v' + s_] * cx['v' + s_],
+                  cx['M' + s_] * cx['M' + s_] * g * cx['p' + s_] / cx['r' + s_])
 
 
 def obligations(tier):
@@ -456,10 +1025,31 @@ def obligations(tier):
     obs.append(ShockKernel(None))
     obs.append(PMKernel(None))
     for g in gs:
-        obs.append(PMKernel(g))
         obs.append(FanKernel(g))
     for side in 'TB':
-        obs.append(ShockSide(side, Fraction(7, 5), Fraction(5, 3), False))
+        obs.append(ShockGlue(side))
+    other = {Fraction(7, 5): Fraction(5, 3)}
+    for g in gs:
+        gd = other.get(g, Fraction(7, 5))
+        for side, tq in (('T', Fraction(3, 4)), ('B', Fraction(-5, 12))):
+            for theta_sym in (False, True, tq):
+                obs.append(ShockSide(side, g, gd, theta_sym))
+            obs.append(FanSide(side, g, gd, True))
+    g0 = Fraction(7, 5)
+    for g in ([g0] if tier == 'quick' else gs):
+        gd = other.get(g, Fraction(7, 5))
+        for side in 'TB':
+            for wave, regions in (('S', ('star', 'outer')), ('R', ('star', 'fan', 'outer'))):
+                for region in regions:
+                    obs.append(Lineout(side, wave, region, g, gd))
+                    if region == 'fan' or tier == 'thorough':
+                        obs.append(Lineout(side, wave, region, g, gd, box=True))
+    pairs = [(Fraction(7, 5), Fraction(7, 5)), (Fraction(7, 5), Fraction(5, 3))]
+    if tier == 'thorough':
+        pairs += [(Fraction(5, 3), Fraction(7, 5)), (Fraction(5, 3), Fraction(5, 3)), (Fraction(3), Fraction(6, 5))]
+    for gB, gT in pairs:
+        obs.append(OverlapCurves(gB, gT))
+        obs.append(Slip(gB, gT))
     for o in obs:
         o.tier = tier
     return obs
